@@ -83,7 +83,8 @@ impl Property for C02 {
                 Case::Wire(WireCase { bytes: wire::finish(&m, over), label: format!("{l}/{over:?}"), has_custom })
             })
         });
-        Box::new(it)
+        let shapes = crate::sigshapes::corpus().iter().map(|r| Case::Wire(WireCase { bytes: r.bytes.clone(), label: format!("sigshape/{}", r.shape), has_custom: false }));
+        Box::new(shapes.chain(it))
     }
     fn fuzz_plans(&self) -> Vec<(&'static str, u64)> {
         vec![("wire_struct", 20000), ("wire_raw", 30000)]
